@@ -463,6 +463,8 @@ func (fr *Frame) stableCells(h *ssa.BasicBlock, li *loopInfo, n string) []string
 			t = v.Term
 		case KSlice:
 			t = v.F[0].Term
+		case KMap:
+			t = v.Term
 		default:
 			return nil
 		}
@@ -616,7 +618,9 @@ func (fr *Frame) instr(in ssa.Instruction) {
 	case *ssa.MakeMap:
 		fr.makeMap(i)
 	case *ssa.MapUpdate:
+		fr.storeRoot = i.Map
 		fr.mapUpdate(fr.val(i.Map), fr.val(i.Key), fr.val(i.Value))
+		fr.storeRoot = nil
 	case *ssa.Lookup:
 		fr.lookup(i)
 	case *ssa.Range:
